@@ -8,7 +8,9 @@ Literal transliteration (same branch order, comparison strictness and operation 
 (fixes/C05-*.diff), not the pinned tree:
 * `Ball.project*` at the exact centre (pinned tree: `0 * (r / 0) = NaN`);
 * `Cylinder.project`, interior point, `solid = false`, `dist_to_top == dist_to_bottom` (pinned tree: both
-  strict tests fail and the point is sent to the side even when a cap is nearer).
+  strict tests fail and the point is sent to the side even when a cap is nearer);
+* `aabbFeature*`, point already on a `+` face: `ls_pt[i] >= maxs[i] - ε` (pinned tree: `>`, which is never true once
+  `maxs[i] - ε` rounds to `maxs[i]`, i.e. for half-extents `≥ 4`, and `FeatureId::Unknown` is returned).
 Conventions: `Bounded::max_value()` in `Aabb::do_project_local_point` is modelled by `none : Option K`
 (`x > -f64::MAX` holds for every finite `x` of the valid domain); `copy_sign_to(1)` is `if z < 0 then -1 else 1`
 (differs from the bit operation only at `z = -0.0`); `relative_eq!`'s infinity test is dropped (finite domain).
@@ -216,7 +218,7 @@ def aabbFeature3 (mins maxs pt : V3 K) : PP3 K × Feat :=
       match fuel with
       | 0 => Feat.unknown
       | fuel + 1 =>
-        if maxs.get i - eps < ls.get i then Feat.face i
+        if maxs.get i - eps ≤ ls.get i then Feat.face i
         else if ls.get i ≤ mins.get i + eps then Feat.face (i + 3)
         else go fuel (i + 1)
     (proj, go 3 0)
@@ -242,7 +244,7 @@ def aabbFeature2 (mins maxs pt : V2 K) : PP2 K × Feat :=
       match fuel with
       | 0 => Feat.unknown
       | fuel + 1 =>
-        if maxs.get i - eps < ls.get i then Feat.face i
+        if maxs.get i - eps ≤ ls.get i then Feat.face i
         else if ls.get i ≤ mins.get i + eps then Feat.face (i + 2)
         else go fuel (i + 1)
     (proj, go 2 0)
